@@ -246,6 +246,7 @@ static size_t safec_ntoa_format(out_fct_type out, const char *funcname,
                                 char *buf, size_t len, bool negative,
                                 unsigned int base, unsigned int prec,
                                 unsigned int width, unsigned int flags) {
+    const size_t ndigits = len; // the value's own digits, never to be dropped
     // pad leading zeros
     if (!(flags & FLAGS_LEFT)) {
         if (width && (flags & FLAGS_ZEROPAD) &&
@@ -263,10 +264,11 @@ static size_t safec_ntoa_format(out_fct_type out, const char *funcname,
 
     // handle hash
     if (flags & FLAGS_HASH) {
-        if (!(flags & FLAGS_PRECISION) && len &&
+        // make room for the prefix among the padding zeros only
+        if (!(flags & FLAGS_PRECISION) && len > ndigits &&
             ((len == prec) || (len == width))) {
             len--;
-            if (len && (base == 16U)) {
+            if (len > ndigits && (base == 16U)) {
                 len--;
             }
         }
